@@ -233,4 +233,151 @@ theorem posStopLoop_spec (m bound : Nat) :
       have e : ind + 1 + r.length = ind + (r.length + 1) := by omega
       rw [e]
 
+/-! ### `fill_into` -/
+
+/-- the two shapes of the `fill_into` state, in terms of the `islice` loop variables `next`, `cnt`:
+either the next index still has to be fetched (`_index > _next_index`), or it has been fetched
+(`_next_index = next`, already checked against `stop`) and `_index` has not reached it yet -/
+def FillGood (stop : Option Nat) (step next cnt : Nat) (s : FillState) : Prop :=
+  s.index = cnt ∧ cnt ≤ next ∧
+    ((s.nextIndex1 ≤ cnt ∧ s.pendingIdx = next) ∨
+     (s.nextIndex1 = next + 1 ∧ s.pendingIdx = next + step ∧ ∀ st, stop = some st → next < st))
+
+theorem fillGood_init (stop : Option Nat) (step start : Nat) :
+    FillGood stop step start 0 (fillInit start) :=
+  ⟨rfl, Nat.zero_le _, Or.inl ⟨Nat.le_refl _, rfl⟩⟩
+
+/-- one `fill_into` call, related to one round of the `islice` loop -/
+theorem fillInto_step (stop : Option Nat) (step : Nat) (hs : 1 ≤ step) (next cnt : Nat) (s : FillState)
+    (h : FillGood stop step next cnt s) :
+    ((∃ st, stop = some st ∧ st ≤ next) ∧ s.nextIndex1 ≤ cnt ∧ (fillInto stop step s).2 = .stopFill) ∨
+    ((∀ st, stop = some st → next < st) ∧
+      ((cnt = next ∧ (fillInto stop step s).2 = .filled
+          ∧ FillGood stop step (next + step) (cnt + 1) (fillInto stop step s).1) ∨
+       (cnt ≠ next ∧ (fillInto stop step s).2 = .skipped
+          ∧ FillGood stop step next (cnt + 1) (fillInto stop step s).1))) := by
+  obtain ⟨idx, ni, pi⟩ := s
+  obtain ⟨hi, hle, hAB⟩ := h
+  simp only at hi hAB
+  subst hi
+  -- the tail, for a state whose `_next_index` is `next`
+  have tail : ∀ (p : Nat), (∀ st, stop = some st → next < st) → p = next + step →
+      ((idx = next ∧ (fillTail ⟨idx, next + 1, p⟩).2 = .filled
+          ∧ FillGood stop step (next + step) (idx + 1) (fillTail ⟨idx, next + 1, p⟩).1) ∨
+       (idx ≠ next ∧ (fillTail ⟨idx, next + 1, p⟩).2 = .skipped
+          ∧ FillGood stop step next (idx + 1) (fillTail ⟨idx, next + 1, p⟩).1)) := by
+    intro p hlt hp
+    by_cases he : idx = next
+    · left
+      have : (idx + 1 == next + 1) = true := by simp [he]
+      simp only [fillTail, this, if_true]
+      exact ⟨he, trivial, rfl, by omega, Or.inl ⟨by simp only []; omega, hp⟩⟩
+    · right
+      have : (idx + 1 == next + 1) = false := by simp [he]
+      simp only [fillTail, this, Bool.false_eq_true, if_false]
+      exact ⟨he, trivial, rfl, by omega, Or.inr ⟨rfl, hp, hlt⟩⟩
+  rcases hAB with ⟨hn, hp⟩ | ⟨hn, hp, hlt⟩
+  · -- the next index has to be fetched
+    subst hp
+    have hfetch : idx + 1 > ni := by omega
+    simp only [fillInto, hfetch, if_true, nextIndices]
+    cases hstop : stop with
+    | some st =>
+      by_cases hge : st ≤ pi
+      · left
+        have : pi ≥ st := hge
+        simp only [this, if_true]
+        exact ⟨⟨st, rfl, hge⟩, hn, trivial⟩
+      · right
+        have : ¬ (pi ≥ st) := hge
+        simp only [this, if_false]
+        have hlt : ∀ st', stop = some st' → pi < st' := by
+          intro st' h'; rw [hstop] at h'; cases h'; omega
+        rw [← hstop]
+        exact ⟨hlt, tail (pi + step) hlt rfl⟩
+    | none =>
+      right
+      simp only []
+      have hlt : ∀ st', stop = some st' → pi < st' := by
+        intro st' h'; rw [hstop] at h'; cases h'
+      rw [← hstop]
+      exact ⟨hlt, tail (pi + step) hlt rfl⟩
+  · -- `_next_index = next` is known and `_index ≤ next`
+    right
+    subst hn
+    have hnofetch : ¬ (idx + 1 > next + 1) := by omega
+    simp only [fillInto, hnofetch, if_false]
+    exact ⟨hlt, tail pi hlt hp⟩
+
+theorem isliceGo_stop (step next cnt st : Nat) (h : st ≤ next) (x : α) (rest : List α) :
+    isliceGo (some st) step next cnt (x :: rest) = [] := by
+  have : next ≥ st := h
+  simp [isliceGo, this]
+
+theorem isliceGo_emit (stop : Option Nat) (step next : Nat) (hlt : ∀ st, stop = some st → next < st)
+    (x : α) (rest : List α) :
+    isliceGo stop step next next (x :: rest) = x :: isliceGo stop step (next + step) (next + 1) rest := by
+  cases stop with
+  | none => simp [isliceGo]
+  | some st =>
+    have : ¬ (next ≥ st) := by have := hlt st rfl; omega
+    simp [isliceGo, this]
+
+theorem isliceGo_skip (stop : Option Nat) (step next cnt : Nat) (hlt : ∀ st, stop = some st → next < st)
+    (hne : cnt ≠ next) (x : α) (rest : List α) :
+    isliceGo stop step next cnt (x :: rest) = isliceGo stop step next (cnt + 1) rest := by
+  cases stop with
+  | none => simp [isliceGo, hne]
+  | some st =>
+    have : ¬ (next ≥ st) := by have := hlt st rfl; omega
+    simp [isliceGo, this, hne]
+
+/-- the values `fill_into` passes on are those `islice` would emit -/
+theorem fillAll_values (stop : Option Nat) (step : Nat) (hs : 1 ≤ step) :
+    ∀ (xs : List α) (next cnt : Nat) (s : FillState), FillGood stop step next cnt s →
+      (fillAll stop step s cnt xs).1 = isliceGo stop step next cnt xs
+  | [], _, _, _, _ => by simp [fillAll, isliceGo]
+  | x :: rest, next, cnt, s, hg => by
+    have hstep := fillInto_step stop step hs next cnt s hg
+    generalize hfi : fillInto stop step s = r at hstep
+    obtain ⟨s', o⟩ := r
+    simp only at hstep
+    rcases hstep with ⟨⟨st, rfl, hle⟩, _, rfl⟩ | ⟨hlt, ⟨rfl, rfl, hg'⟩ | ⟨hne, rfl, hg'⟩⟩
+    · simp only [fillAll, hfi]
+      rw [isliceGo_stop _ _ _ _ hle]
+    · simp only [fillAll, hfi]
+      rw [isliceGo_emit stop step cnt hlt, fillAll_values stop step hs rest _ _ s' hg']
+    · simp only [fillAll, hfi]
+      rw [isliceGo_skip stop step next cnt hlt hne, fillAll_values stop step hs rest _ _ s' hg']
+
+/-- where `LenaStopFill` can be raised: at some index `j ≥ cnt`, only with a finite `stop`, and then the
+arithmetic progression `next, next+step, …` has left `[0, stop)` at a term all of whose predecessors
+are `< j` -/
+theorem fillAll_stop (stop : Option Nat) (step : Nat) (hs : 1 ≤ step) :
+    ∀ (xs : List α) (next cnt : Nat) (s : FillState), FillGood stop step next cnt s →
+      ∀ j, (fillAll stop step s cnt xs).2 = some j →
+        ∃ st k, stop = some st ∧ st ≤ next + k * step ∧ cnt ≤ j ∧ (k = 0 ∨ next + (k - 1) * step < j)
+  | [], _, _, _, _ => by simp [fillAll]
+  | x :: rest, next, cnt, s, hg => by
+    intro j hj
+    have hstep := fillInto_step stop step hs next cnt s hg
+    generalize hfi : fillInto stop step s = r at hstep
+    obtain ⟨s', o⟩ := r
+    simp only at hstep
+    rcases hstep with ⟨⟨st, rfl, hle⟩, _, rfl⟩ | ⟨hlt, ⟨rfl, rfl, hg'⟩ | ⟨hne, rfl, hg'⟩⟩
+    · simp only [fillAll, hfi, Option.some.injEq] at hj
+      exact ⟨st, 0, rfl, by omega, by omega, Or.inl rfl⟩
+    · simp only [fillAll, hfi] at hj
+      obtain ⟨st, k, h1, h2, h3, h4⟩ := fillAll_stop stop step hs rest _ _ s' hg' j hj
+      refine ⟨st, k + 1, h1, ?_, by omega, Or.inr ?_⟩
+      · rw [Nat.succ_mul]; omega
+      · rcases h4 with rfl | h4
+        · simp; omega
+        · obtain ⟨k', rfl⟩ : ∃ k', k = k' + 1 := ⟨k - 1, by omega⟩
+          simp only [Nat.add_sub_cancel] at h4 ⊢
+          rw [Nat.succ_mul]; omega
+    · simp only [fillAll, hfi] at hj
+      obtain ⟨st, k, h1, h2, h3, h4⟩ := fillAll_stop stop step hs rest _ _ s' hg' j hj
+      exact ⟨st, k, h1, h2, by omega, h4⟩
+
 end Lena.C17
